@@ -27,6 +27,8 @@ RECURSION_EXEMPT = {
 
 
 def run(prog, rep):
+    from rules import unaligned_loads
+    unaligned_loads.check(prog, rep, 'R2.13')
     from rules import keycmp
     keycmp.check_reflexive(prog, rep, 'R2.11')
     from rules import definite_init
